@@ -1023,6 +1023,22 @@ for _nm, _obl in (("ok", ["attempted", "ok-inserted"]), ("dup", ["attempted", "d
       mutant=dict(file=TRI, old="                    // Any error - rollback to snapshot\n                    self.tds = tds_snapshot;\n", new="                    // Any error - rollback to snapshot\n                    if e.is_retryable() {\n                        self.tds = tds_snapshot;\n                    }\n",
                   desc="snapshot restored only for retryable failures") if _nm == "structural" else None)
 
+_SL_EDGES = dict(file=TRI, fn_anchor=r"pub fn build_adjacency_index\(&self\)", name="verif_slice_index_edges",
+                 params="vertices: &[VertexKey], mut seen_edges: FastHashSet<EdgeKey>, mut vertex_to_edges: FastHashMap<VertexKey, SmallBuffer<EdgeKey, MAX_PRACTICAL_DIMENSION_SIZE>>",
+                 ret="(FastHashSet<EdgeKey>, FastHashMap<VertexKey, SmallBuffer<EdgeKey, MAX_PRACTICAL_DIMENSION_SIZE>>)",
+                 stmts=[dict(rest_of_block_after=r"if let Some\(neighbors\) = cell\.neighbors\(\) \{", anchor_is_block=True, wrap_loop=True)], result="(seen_edges, vertex_to_edges)")
+K("tri.index_edges_canonical", ["C15"], TRI, "tri_edges.rs", "edge_index_canonical_contract", "K-slice",
+  [dict(file=TRI, name="Triangulation::build_adjacency_index (K-slice: vertex -> edges part of the per-cell loop body)", anchor=_SL_EDGES["fn_anchor"]),
+   dict(file="src/core/edge.rs", name="EdgeKey::new", anchor=r"pub fn new\(a: VertexKey, b: VertexKey\) -> Self")],
+  slices=[_SL_EDGES], tier="thorough", timeout=3000, no_playback=True,
+  bounded="ONE concrete pair of vertex keys (slot 7 version 1, slot 1 version 3) in one cell with two vertices; the edge is already recorded, so no second hash entry is created on the unchanged code",
+  assumed=["K-slice: the statements of the per-cell loop body of build_adjacency_index after the `if let Some(neighbors) = .. { .. }` block (run once); vertex -> cells and cell -> neighbours parts dropped; "
+           "hashbrown with concrete keys only (one set entry)"],
+  obligations=["new-order-free", "edge-keys-canonical"],
+  claim="adjacency index: the edges of a cell are stored / looked up under the canonical EdgeKey (EdgeKey::new order) also when slot-map order and canonical order of the endpoints differ (reused vertex slot)",
+  mutant=dict(file=TRI, old="                    let edge = EdgeKey::new(vertices[i], vertices[j]);\n                    if !seen_edges.insert(edge) {", new="                    let edge = EdgeKey::new(vertices[i], vertices[j]);\n                    if seen_edges.insert(edge) {",
+              desc="edge dedup inverted in the adjacency index"))
+
 K("dt.level4_report", ["C04", "C05"], DT, "dt.rs", "level4_report_contract", "K-callee",
   [fn(DT, "validation_report", anchor=r"pub fn validation_report\(&self\) -> Result<\(\), TriangulationValidationReport>")], tier="thorough", timeout=5400,
   assumed=["Triangulation::validation_report (stub): Ok or a report with one violation (mapping kind or other); DelaunayTriangulation::is_valid (stub): any verdict"],
